@@ -3,21 +3,26 @@ C04 — An operator never signs a slashable attestation or block, across restart
 Property theorems only (model: Ssv/Model/Slashing.lean, invariant and lemmas: Ssv/Proofs/Slashing.lean).
 
 All statements quantify over EVERY operation history (`List Op`, any length, any order of
-add / add-with-storage-fault / remove / remove-with-storage-fault / reactivate / split reactivate /
-sign attestation / sign block / clock advance / restart), every clock start and every network parameter.
+add / add-with-storage-fault / remove / remove-with-storage-fault / reactivate (whole or split into its clock read,
+record reads and record writes) / sign attestation / sign block / sign with failing record write / clock advance /
+restart / resume), every clock start and every network parameter.
 
-Hypotheses of the main theorems, as per-step guards (`Along cfg P s ops` = `P` holds at every step):
-* `SignedOk`  — a SIGNED attestation has `source < target` and `target ≤ epoch(clock at signing time)`; a SIGNED
-  block has `slot ≤ clock`. The second halves are the property's own quantifier ("targets and block slots not
-  beyond the clock at signing time, as duties are"). `source < target` is enforced by the attester value check of
-  ssv-spec (`AttesterValueCheckF`: "attestation data source > target") before any sign request is made; the key
-  manager itself does not check it. Both hypotheses are necessary: `C04_without_src_lt_tgt_full_refuted` / `C04_target_next_epoch_full_refuted` below give
-  histories, accepted step by step by the signer, that end in a slashable pair when one of them is dropped.
-  (The value check admits `target ≤ current epoch + 1`; that point is outside the property's quantifier and
-  `C04_target_next_epoch_full_refuted` shows the signer is NOT safe there: a remove + re-add in the
-  same epoch re-installs `(e-1, e)` below the signed target `e+1`.)
-* `Fresh`     — only for histories that split `BumpSlashingProtection` into its separate storage steps: the
-  write happens while the clock still shows the epoch / slot the bump read at its beginning.
+Current semantics (`step`, /repo commit 23d9c6c97): `BumpSlashingProtection` holds the wallet lock for writing, so
+while a split bump is in flight only the clock can advance or the process restart; a lock-taking request issued
+meanwhile is delayed and executes when the bump has finished. `C04_no_slashable_pair` is the FULL statement for that
+op alphabet. The semantics before the fix (`stepOld`) is kept with its 12-op double-vote witness as a regression
+lemma (`C04_old_split_bump_refuted`).
+
+The only hypothesis (`Along cfg (SignedOk cfg) s ops`, a per-step guard): every signature RELEASED by a step has
+`source < target ≤ epoch(clock at its release)` (attestation) / `slot ≤ clock` (block).
+* The clock halves are the property's own quantifier ("targets and block slots not beyond the clock at signing
+  time, as duties are").
+* `source < target` is enforced by the attester value check of ssv-spec (`AttesterValueCheckF`: "attestation data
+  source > target") before any sign request is made; the key manager itself does not check it.
+* Both are necessary: `C04_without_src_lt_tgt_full_refuted` / `C04_target_next_epoch_full_refuted` give histories,
+  accepted step by step by the signer, that end in a slashable pair when one of them is dropped. (The value check
+  admits `target ≤ current epoch + 1`; that point is outside the property's quantifier and the signer is NOT safe
+  there: a remove + re-add in the same epoch re-installs `(e-1, e)` below the signed target `e+1`.)
 -/
 import Ssv.Proofs.Slashing
 
@@ -36,16 +41,17 @@ theorem C04_tie_prefixes :
     Gen.ekm_highestProposalPrefix = "signer_data-highest_prop-" := by decide
 
 /-- call-site facts the model's step structure relies on:
-    AddShare = wallet write lock, account lookup, bump, save account; RemoveShare = wallet write lock, lookup,
-    delete att record, delete proposal record, delete account; BumpSlashingProtection takes NO lock and is
-    clock read, attestation update, proposal update; each update is read → (epoch) → minimal → save;
+    AddShare = wallet write lock, account lookup, UNLOCKED bump, save account; RemoveShare = wallet write lock, lookup,
+    delete att record, delete proposal record, delete account; BumpSlashingProtection = wallet WRITE lock, then the
+    unlocked bump = clock read, attestation update, proposal update; each update is read → (epoch) → minimal → save;
     SignBeaconObject dispatches to signBeaconObject, which takes the wallet READ lock and dispatches to the
     library signers; the constructor (= restart) touches no record. -/
 theorem C04_tie_callsites :
-    Gen.calls_ekm_AddShare = ["Lock", "AccountByPublicKey", "BumpSlashingProtection", "saveShare"] ∧
+    Gen.calls_ekm_AddShare = ["Lock", "AccountByPublicKey", "bumpSlashingProtection", "saveShare"] ∧
     Gen.calls_ekm_RemoveShare =
       ["Lock", "AccountByPublicKey", "RemoveHighestAttestation", "RemoveHighestProposal", "DeleteAccountByPublicKey"] ∧
-    Gen.calls_ekm_BumpSlashingProtection = ["EstimatedCurrentSlot", "updateHighestAttestation", "updateHighestProposal"] ∧
+    Gen.calls_ekm_BumpSlashingProtection = ["Lock", "bumpSlashingProtection"] ∧
+    Gen.calls_ekm_bumpUnlocked = ["EstimatedCurrentSlot", "updateHighestAttestation", "updateHighestProposal"] ∧
     Gen.calls_ekm_updateHighestAttestation =
       ["RetrieveHighestAttestation", "EstimatedEpochAtSlot", "computeMinimalAttestationSP", "SaveHighestAttestation"] ∧
     Gen.calls_ekm_updateHighestProposal = ["RetrieveHighestProposal", "computeMinimalProposerSP", "SaveHighestProposal"] ∧
@@ -109,70 +115,88 @@ def Safe (s : State) : Prop :=
 
 instance (s : State) : Decidable (Safe s) := by unfold Safe; infer_instance
 
-/-! ## main theorems -/
+/-! ## main theorem -/
 
-/-- C04 for every history that may split reactivations into their separate storage steps, interleaved with
-    anything (sign requests, removal, restart, faults, …), provided the split bump's writes are `Fresh`.
-    PARTIAL with respect to `C04_no_slashable_pair_splits_full`: what is missing is the case where the clock
-    crosses an epoch / slot boundary between a bump's clock read and its write (refuted below). -/
-theorem C04_no_slashable_pair_splits_partial (cfg : Cfg) (c0 : Nat) (ops : List Op)
-    (hwf : Along cfg (SignedOk cfg) (init c0) ops) (hfresh : Along cfg (Fresh cfg) (init c0) ops) :
+/-- C04, FULL: every history over the whole op alphabet — add / remove share (also with storage faults in the
+    middle), reactivation as one op or split into its separate steps interleaved with anything, sign requests (also
+    issued while a bump is in flight: they wait for it), failing record writes, clock advances, restarts — any
+    length, any order: if every released signature is within the clock at its release (and `source < target`), the
+    released signatures contain no double vote, no surround pair and no two blocks for one slot. -/
+theorem C04_no_slashable_pair (cfg : Cfg) (c0 : Nat) (ops : List Op)
+    (hwf : Along cfg (SignedOk cfg) (init c0) ops) :
     Safe (run cfg (init c0) ops) := by
-  have h := inv_run ops (inv_init cfg c0) hwf hfresh
+  have h := inv_run ops (inv_init cfg c0) hwf
   exact ⟨h.attSafe, h.blkSafe⟩
 
-/-- C04 as the property text quantifies it: all sequences of {add share, remove share, reactivate, sign
-    attestation, sign block, advance clock, restart on the same database} (+ storage faults inside add/remove),
-    any length, any order, with signed targets / slots not beyond the clock at signing time. -/
-theorem C04_no_slashable_pair (cfg : Cfg) (c0 : Nat) (ops : List Op)
-    (hatomic : ∀ op ∈ ops, Op.atomic op = true)
-    (hwf : Along cfg (SignedOk cfg) (init c0) ops) :
-    Safe (run cfg (init c0) ops) :=
-  C04_no_slashable_pair_splits_partial cfg c0 ops hwf (fresh_of_atomic ops rfl hatomic)
-
-/-- the full statement for split reactivations (no freshness hypothesis) … -/
-def C04_no_slashable_pair_splits_full : Prop :=
-  ∀ (cfg : Cfg) (c0 : Nat) (ops : List Op), Along cfg (SignedOk cfg) (init c0) ops → Safe (run cfg (init c0) ops)
-
 def cfg32 : Cfg := ⟨32, 1000000, 32000000⟩
+
+/-! ## regression: the semantics before the fix (bump without the wallet lock) -/
+
+/-- the old hypothesis on a step of the OLD semantics -/
+def SignedOkOld (cfg : Cfg) (s : State) (op : Op) : Prop := NewOk cfg s (stepOld cfg s op).1
+
+def AlongOld (cfg : Cfg) (s : State) : List Op → Prop
+  | [] => True
+  | op :: ops => SignedOkOld cfg s op ∧ AlongOld cfg (stepOld cfg s op).1 ops
+
+instance (cfg : Cfg) (s : State) (op : Op) : Decidable (SignedOkOld cfg s op) := by
+  unfold SignedOkOld; infer_instance
+
+def decAlongOld (cfg : Cfg) : ∀ (s : State) (ops : List Op), Decidable (AlongOld cfg s ops)
+  | _, [] => isTrue trivial
+  | s, op :: ops =>
+    match (inferInstance : Decidable (SignedOkOld cfg s op)), decAlongOld cfg (stepOld cfg s op).1 ops with
+    | isTrue h1, isTrue h2 => isTrue ⟨h1, h2⟩
+    | isFalse h1, _ => isFalse (fun h => h1 h.1)
+    | _, isFalse h2 => isFalse (fun h => h2 h.2)
+
+instance (cfg : Cfg) (s : State) (ops : List Op) : Decidable (AlongOld cfg s ops) := decAlongOld cfg s ops
+
+/-- the statement for the OLD semantics … -/
+def C04_old_split_bump : Prop :=
+  ∀ (cfg : Cfg) (c0 : Nat) (ops : List Op), AlongOld cfg (init c0) ops → Safe (runOld cfg (init c0) ops)
 
 /-- the race: epoch 12, a reactivation reads the clock and the old record (9,10) and decides to write (11,12);
     the clock moves to epoch 13; (12,13) is signed [record (12,13)]; the bump writes (11,12) — LOWERING the
     record; (11,13) is signed: double vote on target 13. The same bump then reads the proposal record 320, decides
     to write 384; slot 416 is signed [record 416]; the bump writes 384; slot 416 is signed again.
-    (corpus/C04/ekm_race_stale_bump_write.ops replays exactly this on the real code.) -/
+    (corpus/C04/ekm_race_stale_bump_write.ops is this history.) -/
 def raceWitness : List Op :=
   [.addShare, .tick 64, .bumpBegin, .bumpRead, .tick 32, .signAtt 12 13, .bumpWrite, .signAtt 11 13,
    .bumpRead, .signBlock 416, .bumpWrite, .signBlock 416]
 
-/-- … is false of the code: `BumpSlashingProtection` is not atomic with respect to signing and writes a value
-    computed from a clock reading that may be stale at the time of the write. -/
-theorem C04_no_slashable_pair_splits_full_refuted : ¬ C04_no_slashable_pair_splits_full := by
+/-- … was false: a bump that is not atomic with respect to signing writes a value computed from a clock reading that
+    may be stale at the time of the write (reproduced on the real code before commit 23d9c6c97) -/
+theorem C04_old_split_bump_refuted : ¬ C04_old_split_bump := by
   intro h
   have := h cfg32 320 raceWitness (by decide)
   revert this
   decide
 
-/-- what the race witness releases -/
-example : (run cfg32 (init 320) raceWitness).atts = [(11, 13), (12, 13)] ∧
-    (run cfg32 (init 320) raceWitness).blocks = [416, 416] := by decide
+/-- what the race witness released under the old semantics … -/
+example : (runOld cfg32 (init 320) raceWitness).atts = [(11, 13), (12, 13)] ∧
+    (runOld cfg32 (init 320) raceWitness).blocks = [416, 416] := by decide
+
+/-- … and what the same 12 ops (followed by collecting the delayed outcomes) do now: the first sign request waits for
+    the bump, is signed when it finishes ((12,13), record (12,13)); every later conflicting request is refused -/
+example :
+    Along cfg32 (SignedOk cfg32) (init 320) raceWitness ∧
+    (run cfg32 (init 320) raceWitness).atts = [(12, 13)] ∧
+    (run cfg32 (init 320) raceWitness).blocks = [416] ∧
+    (run cfg32 (init 320) raceWitness).d = ⟨some (12, 13), some 416, true⟩ := by decide
 
 /-! ## each hypothesis of `SignedOk` is needed (the real signer was run at these excluded points, see notes/C04.md) -/
 
 /-- `SignedOk` without `source < target` -/
 def SignedOkNoSrc (cfg : Cfg) (s : State) (op : Op) : Prop :=
-  (step cfg s op).2 = .signed →
-    match op with
-    | .signAtt _ y => y ≤ epochOf cfg s.clock
-    | .signBlock slot => slot ≤ s.clock
-    | _ => True
+  (∀ a ∈ (step cfg s op).1.atts, a ∈ s.atts ∨ a.2 ≤ epochOf cfg s.clock) ∧
+  (∀ b ∈ (step cfg s op).1.blocks, b ∈ s.blocks ∨ b ≤ s.clock)
 
 instance (cfg : Cfg) (s : State) (op : Op) : Decidable (SignedOkNoSrc cfg s op) := by
-  unfold SignedOkNoSrc
-  cases op <;> dsimp only <;> infer_instance
+  unfold SignedOkNoSrc; infer_instance
 
 def C04_without_src_lt_tgt_full : Prop :=
-  ∀ (cfg : Cfg) (c0 : Nat) (ops : List Op), (∀ op ∈ ops, Op.atomic op = true) →
+  ∀ (cfg : Cfg) (c0 : Nat) (ops : List Op),
     Along cfg (SignedOkNoSrc cfg) (init c0) ops → Safe (run cfg (init c0) ops)
 
 /-- (50,11) is signed at epoch 11 (the signer accepts source ≥ target); remove + re-add installs (10,11);
@@ -180,25 +204,21 @@ def C04_without_src_lt_tgt_full : Prop :=
 theorem C04_without_src_lt_tgt_full_refuted : ¬ C04_without_src_lt_tgt_full := by
   intro h
   have := h cfg32 320 [.addShare, .tick 32, .signAtt 50 11, .removeShare, .addShare, .tick 1568, .signAtt 20 60]
-    (by decide) (by decide)
+    (by decide)
   revert this
   decide
 
 /-- `SignedOk` with the clock bound relaxed to what the ssv-spec value check admits (`target ≤ current epoch + 1`,
     `slot ≤ clock + 1`) -/
 def SignedOkNextEpoch (cfg : Cfg) (s : State) (op : Op) : Prop :=
-  (step cfg s op).2 = .signed →
-    match op with
-    | .signAtt x y => x < y ∧ y ≤ epochOf cfg s.clock + 1
-    | .signBlock slot => slot ≤ s.clock + 1
-    | _ => True
+  (∀ a ∈ (step cfg s op).1.atts, a ∈ s.atts ∨ (a.1 < a.2 ∧ a.2 ≤ epochOf cfg s.clock + 1)) ∧
+  (∀ b ∈ (step cfg s op).1.blocks, b ∈ s.blocks ∨ b ≤ s.clock + 1)
 
 instance (cfg : Cfg) (s : State) (op : Op) : Decidable (SignedOkNextEpoch cfg s op) := by
-  unfold SignedOkNextEpoch
-  cases op <;> dsimp only <;> infer_instance
+  unfold SignedOkNextEpoch; infer_instance
 
 def C04_target_next_epoch_full : Prop :=
-  ∀ (cfg : Cfg) (c0 : Nat) (ops : List Op), (∀ op ∈ ops, Op.atomic op = true) →
+  ∀ (cfg : Cfg) (c0 : Nat) (ops : List Op),
     Along cfg (SignedOkNextEpoch cfg) (init c0) ops → Safe (run cfg (init c0) ops)
 
 /-- epoch 10: (10,11) is signed (target = next epoch); remove + re-add in the same epoch installs (9,10);
@@ -206,37 +226,37 @@ def C04_target_next_epoch_full : Prop :=
 theorem C04_target_next_epoch_full_refuted : ¬ C04_target_next_epoch_full := by
   intro h
   have := h cfg32 320 [.addShare, .signAtt 10 11, .signBlock 321, .removeShare, .addShare, .signAtt 9 11, .signBlock 321]
-    (by decide) (by decide)
+    (by decide)
   revert this
   decide
 
-/-! ## missing record ⇒ refuse; a signature is only released after check and update -/
+/-! ## missing record ⇒ refuse; a signature is only released after check and update, never during a bump -/
 
-/-- no attestation record (never written, deleted by a half-finished removal, …) ⇒ the request is refused,
-    nothing is released and nothing changes — whatever else the state is -/
+/-- no attestation record (never written, deleted by a half-finished removal, …) ⇒ the request, when it executes, is
+    refused, nothing is released and nothing changes — whatever else the state is -/
 theorem C04_refuse_when_missing (cfg : Cfg) (s : State) (x y : Nat) (h : s.d.att = none) :
-    (step cfg s (.signAtt x y)).1 = s ∧ ∃ r, (step cfg s (.signAtt x y)).2 = .refused r := by
-  simp only [step, stepSignAtt, h]
+    (stepFree cfg s (.signAtt x y)).1 = s ∧ ∃ r, (stepFree cfg s (.signAtt x y)).2 = .refused r := by
+  simp only [stepFree, stepSignAtt, h]
   repeat' split
   all_goals exact ⟨rfl, _, rfl⟩
 
 /-- … with the library's own reason when the account exists and the epochs pass the far-future check -/
 theorem C04_refuse_when_missing_tag (cfg : Cfg) (s : State) (x y : Nat) (h : s.d.att = none)
     (hacc : s.d.account = true) (hx : x ≤ cfg.ffEpoch) (hy : y ≤ cfg.ffEpoch) :
-    step cfg s (.signAtt x y) = (s, .refused .attMissing) := by
-  simp only [step, stepSignAtt, h, hacc]
+    stepFree cfg s (.signAtt x y) = (s, .refused .attMissing) := by
+  simp only [stepFree, stepSignAtt, h, hacc]
   rw [if_neg (by simp), if_neg (by omega), if_neg (by omega)]
 
 theorem C04_refuse_when_missing_block (cfg : Cfg) (s : State) (slot : Nat) (h : s.d.prop = none) :
-    (step cfg s (.signBlock slot)).1 = s ∧ ∃ r, (step cfg s (.signBlock slot)).2 = .refused r := by
-  simp only [step, stepSignBlock, h]
+    (stepFree cfg s (.signBlock slot)).1 = s ∧ ∃ r, (stepFree cfg s (.signBlock slot)).2 = .refused r := by
+  simp only [stepFree, stepSignBlock, h]
   repeat' split
   all_goals exact ⟨rfl, _, rfl⟩
 
 theorem C04_refuse_when_missing_block_tag (cfg : Cfg) (s : State) (slot : Nat) (h : s.d.prop = none)
     (hacc : s.d.account = true) (hs : slot ≤ cfg.ffSlot) (h0 : slot ≠ 0) :
-    step cfg s (.signBlock slot) = (s, .refused .propMissing) := by
-  simp only [step, stepSignBlock, h, hacc]
+    stepFree cfg s (.signBlock slot) = (s, .refused .propMissing) := by
+  simp only [stepFree, stepSignBlock, h, hacc]
   rw [if_neg (by simp), if_neg (by omega), if_neg h0]
 
 /-- the pre-sign checks `IsAttestationSlashable` / `IsBeaconBlockSlashable` report a missing record as an error -/
@@ -246,9 +266,18 @@ theorem C04_check_missing (x y slot : Nat) (h0 : slot ≠ 0) :
 
 /-- no account (removed share, never added) ⇒ refuse -/
 theorem C04_refuse_without_account (cfg : Cfg) (s : State) (x y slot : Nat) (h : s.d.account = false) :
-    step cfg s (.signAtt x y) = (s, .refused .noAccount) ∧
-    step cfg s (.signBlock slot) = (s, .refused .noAccount) := by
-  simp [step, stepSignAtt, stepSignBlock, h]
+    stepFree cfg s (.signAtt x y) = (s, .refused .noAccount) ∧
+    stepFree cfg s (.signBlock slot) = (s, .refused .noAccount) := by
+  simp [stepFree, stepSignAtt, stepSignBlock, h]
+
+/-- a request issued while a bump is in flight releases nothing and touches no record: it waits (or is rejected when
+    another request is already waiting) -/
+theorem C04_request_during_bump_waits (cfg : Cfg) (s : State) (x y slot : Nat) (h : s.pend.isSome = true) :
+    (step cfg s (.signAtt x y)).2 ≠ .signed ∧ (step cfg s (.signBlock slot)).2 ≠ .signed ∧
+    (step cfg s (.signAtt x y)).1.d = s.d ∧ (step cfg s (.signAtt x y)).1.atts = s.atts ∧
+    (step cfg s (.signBlock slot)).1.d = s.d ∧ (step cfg s (.signBlock slot)).1.blocks = s.blocks := by
+  simp only [step, blockOrRun, h, if_true]
+  by_cases hd : s.delayed.isSome = true <;> simp [hd]
 
 /-- a state with the account present and the attestation record missing is reachable (a removal whose second
     delete fails), and there attestation requests are refused while the intact proposal record still works -/
@@ -258,45 +287,65 @@ example :
     step cfg32 s (.signAtt 9 10) = (s, .refused .attMissing) ∧
     (step cfg32 s (.signBlock 0)).2 = .refused .slotZero := by decide
 
-/-- a released attestation signature implies: account present, record present, request not below the record in
-    source and strictly above it in target, and the record was raised to dominate the request in the same step -/
+/-- a released attestation signature implies: no bump in flight, account present, record present, request not below
+    the record in source and strictly above it in target, and the record was raised to the request in the same step -/
 theorem C04_signed_only_after_check_and_update (cfg : Cfg) (s : State) (x y : Nat)
     (h : (step cfg s (.signAtt x y)).2 = .signed) :
-    s.d.account = true ∧ ∃ hs ht, s.d.att = some (hs, ht) ∧ hs ≤ x ∧ ht < y ∧
+    s.pend = none ∧ s.d.account = true ∧ ∃ hs ht, s.d.att = some (hs, ht) ∧ hs ≤ x ∧ ht < y ∧
       (step cfg s (.signAtt x y)).1.d.att = some (x, y) ∧
       (step cfg s (.signAtt x y)).1.atts = (x, y) :: s.atts := by
+  have hp : s.pend = none := by
+    cases hs : s.pend with
+    | none => rfl
+    | some pc =>
+      exfalso
+      have := (C04_request_during_bump_waits cfg s x y 0 (by simp [hs])).1
+      exact this h
+  have hstep : step cfg s (.signAtt x y) = stepSignAtt cfg s x y := by
+    simp [step, blockOrRun, hp, stepFree]
+  rw [hstep] at h ⊢
   rcases stepSignAtt_cases cfg s x y with ⟨_, h2⟩ | ⟨hs, ht, hatt, hx, hy, hacc, _, _, heq⟩
   · exact absurd h h2
   · have hx' : hs ≤ x := by omega
     have hy' : ht < y := by omega
     have hupd : updAtt (hs, ht) x y = (x, y) := by
       refine Prod.ext ?_ ?_ <;> simp only [updAtt] <;> split <;> omega
-    refine ⟨hacc, hs, ht, hatt, hx', hy', ?_, ?_⟩
-    · simp only [step, heq, hupd]
-    · simp only [step, heq]
+    refine ⟨hp, hacc, hs, ht, hatt, hx', hy', ?_, ?_⟩
+    · simp only [heq, hupd]
+    · simp only [heq]
 
 theorem C04_block_signed_only_after_check_and_update (cfg : Cfg) (s : State) (slot : Nat)
     (h : (step cfg s (.signBlock slot)).2 = .signed) :
-    s.d.account = true ∧ ∃ hp, s.d.prop = some hp ∧ hp < slot ∧
+    s.pend = none ∧ s.d.account = true ∧ ∃ hp, s.d.prop = some hp ∧ hp < slot ∧
       (step cfg s (.signBlock slot)).1.d.prop = some slot ∧
       (step cfg s (.signBlock slot)).1.blocks = slot :: s.blocks := by
-  rcases stepSignBlock_cases cfg s slot with ⟨_, h2⟩ | ⟨hp, hprop, hc, hacc, _, heq⟩
+  have hp : s.pend = none := by
+    cases hs : s.pend with
+    | none => rfl
+    | some pc =>
+      exfalso
+      have := (C04_request_during_bump_waits cfg s 0 0 slot (by simp [hs])).2.1
+      exact this h
+  have hstep : step cfg s (.signBlock slot) = stepSignBlock cfg s slot := by
+    simp [step, blockOrRun, hp, stepFree]
+  rw [hstep] at h ⊢
+  rcases stepSignBlock_cases cfg s slot with ⟨_, h2⟩ | ⟨hp', hprop, hc, hacc, _, heq⟩
   · exact absurd h h2
-  · exact ⟨hacc, hp, hprop, hc, by simp only [step, heq], by simp only [step, heq]⟩
+  · exact ⟨hp, hacc, hp', hprop, hc, by simp only [heq], by simp only [heq]⟩
 
 /-- a sign request whose record write fails (storage error, or the database is closed under the request between
     its check and its write) releases NOTHING and changes nothing — for every state; when the plain request would
     have been signed the refusal is `writeFailed`, otherwise it is the plain request's own refusal.
     Together with `C04_signed_only_after_check_and_update`: released ⇒ the raised record was written. -/
 theorem C04_failed_write_refuses (cfg : Cfg) (s : State) (x y slot : Nat) :
-    (step cfg s (.signAttFault x y)).1 = s ∧ (step cfg s (.signAttFault x y)).2 ≠ .signed ∧
-    (step cfg s (.signBlockFault slot)).1 = s ∧ (step cfg s (.signBlockFault slot)).2 ≠ .signed ∧
-    ((step cfg s (.signAtt x y)).2 = .signed → (step cfg s (.signAttFault x y)).2 = .refused .writeFailed) ∧
-    ((step cfg s (.signBlock slot)).2 = .signed → (step cfg s (.signBlockFault slot)).2 = .refused .writeFailed) := by
+    (stepFree cfg s (.signAttFault x y)).1 = s ∧ (stepFree cfg s (.signAttFault x y)).2 ≠ .signed ∧
+    (stepFree cfg s (.signBlockFault slot)).1 = s ∧ (stepFree cfg s (.signBlockFault slot)).2 ≠ .signed ∧
+    ((stepFree cfg s (.signAtt x y)).2 = .signed → (stepFree cfg s (.signAttFault x y)).2 = .refused .writeFailed) ∧
+    ((stepFree cfg s (.signBlock slot)).2 = .signed → (stepFree cfg s (.signBlockFault slot)).2 = .refused .writeFailed) := by
   refine ⟨(stepSignAttFault_state cfg s x y).1, (stepSignAttFault_state cfg s x y).2,
     (stepSignBlockFault_state cfg s slot).1, (stepSignBlockFault_state cfg s slot).2, ?_, ?_⟩
   · intro h
-    simp only [step] at h ⊢
+    simp only [stepFree] at h ⊢
     unfold stepSignAttFault
     split
     · rfl
@@ -306,7 +355,7 @@ theorem C04_failed_write_refuses (cfg : Cfg) (s : State) (x y slot : Nat) :
       subst h
       first | exact (hne _).elim | exact (hne _ rfl).elim | exact (hne rfl).elim
   · intro h
-    simp only [step] at h ⊢
+    simp only [stepFree] at h ⊢
     unfold stepSignBlockFault
     split
     · rfl
@@ -327,45 +376,46 @@ example :
 
 /-! ## restart -/
 
-/-- a restart changes nothing durable and releases nothing; it only kills an in-flight bump -/
-theorem C04_restart_identity (cfg : Cfg) (s : State) :
+/-- a restart changes nothing durable and releases nothing (no request was waiting); it only kills an in-flight bump -/
+theorem C04_restart_identity (cfg : Cfg) (s : State) (hd : s.delayed = none) :
     (step cfg s .restart).1.d = s.d ∧ (step cfg s .restart).1.atts = s.atts ∧
     (step cfg s .restart).1.blocks = s.blocks ∧ (step cfg s .restart).1.clock = s.clock ∧
+    (step cfg s .restart).1.pend = none ∧
     (s.pend = none → (step cfg s .restart).1 = s) := by
-  refine ⟨rfl, rfl, rfl, rfl, ?_⟩
+  simp only [step, drain, hd]
+  refine ⟨trivial, trivial, trivial, trivial, trivial, ?_⟩
   intro h
-  simp only [step]
   cases s
   simp_all
 
-/-! ## non-vacuity: concrete non-trivial histories satisfy the hypotheses -/
+/-! ## non-vacuity: concrete non-trivial histories satisfy the hypothesis -/
 
 /-- a history with signatures before and after a restart, a refused double vote, a remove + re-add, a
-    reactivation, a storage fault and clock advances: it is atomic and `SignedOk`, four attestations and two
-    blocks are released, and they are safe -/
+    reactivation, a storage fault and clock advances: it is `SignedOk`, three attestations and two blocks are
+    released, and they are safe -/
 def sampleHistory : List Op :=
   [.addShare, .signAtt 9 10, .signBlock 320, .tick 40, .signAtt 10 11, .signAtt 9 11, .signBlock 350, .restart,
    .signAtt 10 11, .tick 64, .signAtt 11 13, .removeShare, .signAtt 12 13, .addShare, .signAtt 12 13,
    .signBlock 424, .tick 32, .bump, .tick 32, .signAtt 14 15, .signBlock 480, .removeFail 1, .signAtt 14 16]
 
-example : (∀ op ∈ sampleHistory, Op.atomic op = true) ∧
+example :
     Along cfg32 (SignedOk cfg32) (init 320) sampleHistory ∧
     (run cfg32 (init 320) sampleHistory).atts = [(14, 15), (11, 13), (10, 11)] ∧
     (run cfg32 (init 320) sampleHistory).blocks = [480, 350] ∧
     (run cfg32 (init 320) sampleHistory).d = ⟨none, some 480, true⟩ := by decide
 
-/-- a split reactivation interleaved with sign requests, `Fresh` and `SignedOk` both hold, signatures are released -/
+/-- a split reactivation with the clock advancing and a sign request arriving while it is in flight: the request
+    waits, the bump writes the (by then stale) minimal record (11,12) / 384, the request (12,13) is signed when the
+    bump finishes, `resume` reports it; later requests are checked against (12,13) -/
 def sampleSplit : List Op :=
-  [.addShare, .tick 64, .bumpBegin, .bumpRead, .signAtt 10 12, .bumpWrite, .bumpRead, .signBlock 380, .bumpWrite,
-   .tick 32, .signAtt 12 13, .signBlock 400]
+  [.addShare, .tick 64, .bumpBegin, .bumpRead, .tick 32, .signAtt 12 13, .tick 1, .bumpWrite, .bumpRead, .bumpWrite,
+   .resume, .signAtt 11 13, .signBlock 417, .signBlock 417]
 
 example : Along cfg32 (SignedOk cfg32) (init 320) sampleSplit ∧
-    Along cfg32 (Fresh cfg32) (init 320) sampleSplit ∧
-    (run cfg32 (init 320) sampleSplit).atts = [(12, 13), (10, 12)] ∧
-    (run cfg32 (init 320) sampleSplit).blocks = [400, 380] := by decide
-
-/-- the race witness satisfies `SignedOk` (so only `Fresh` separates it from the partial theorem) and violates `Fresh` -/
-example : Along cfg32 (SignedOk cfg32) (init 320) raceWitness ∧ ¬ Along cfg32 (Fresh cfg32) (init 320) raceWitness := by
-  decide
+    (step cfg32 (run cfg32 (init 320) (sampleSplit.take 5)) (.signAtt 12 13)).2 = .blocked ∧
+    (step cfg32 (run cfg32 (init 320) (sampleSplit.take 10)) .resume).2 = .signed ∧
+    (run cfg32 (init 320) sampleSplit).atts = [(12, 13)] ∧
+    (run cfg32 (init 320) sampleSplit).blocks = [417] ∧
+    (run cfg32 (init 320) sampleSplit).d = ⟨some (12, 13), some 417, true⟩ := by decide
 
 end Ssv.Slashing
